@@ -31,7 +31,7 @@ try:
     for f in demos:
         shutil.copy(f, os.path.join(wt, pkg, os.path.basename(f)))
     def demo():
-        r = sh(["go", "test", "-vet=off", "-count=1", "-run", run, "./" + pkg], cwd=wt)
+        r = sh(["go", "test", "-vet=off", "-count=1"] + meta.get("demo_flags", "").split() + ["-run", run, "./" + pkg], cwd=wt)
         return r.returncode == 0, (r.stdout + r.stderr)[-1500:]
     ok, out = demo()
     res["demo_passes_without_patch"] = ok
